@@ -5,9 +5,15 @@ import LinfaSpec.Model.NN
 /-!
 C07 driver.  Requests (all self-contained):
 
-`knn   ty= kind= metric= p= ncols= leaf= pts= q= k= [script=]`
-`range ty= kind= metric= p= ncols= leaf= pts= q= r= [script=]`
-`tree  ty= metric= p= ncols= leaf= pts= script=`
+`knn   ty= kind= metric= p= ncols= leaf= [lay= form=] pts= [qlay=] q= k= [script=]`
+`range ty= kind= metric= p= ncols= leaf= [lay= form=] pts= [qlay=] q= r= [script=]`
+`tree  ty= metric= p= ncols= leaf= [lay= form=] pts= script=`
+
+`lay` c|f|strided|t and `qlay` c|strided name the memory layout of batch and query on the Rust side
+(validated, otherwise no input of the model); `form` leaf|default selects `from_batch_with_leaf_size`
+or `from_batch` (leaf size `2^4`, the `leaf=` token is then not used).  Every query request goes
+through the model of the whole call (`knnRequest` / `rangeRequest`: build guards, dispatch on the
+kind, query guard, search).
 
 `ty` f64|f32 (floats travel as 16 resp. 8 hex digits), `kind` linear|kd|ball, `metric` l1|l2|linf|lp
 (`p` = exponent of lp), `pts` list2, `q` list, `script` = the splits the real ball tree took, one
@@ -132,47 +138,59 @@ def run (sc : Sc α) (op : String) (toks : List String) : Option String := do
   let fD := fun (x : α) => if approx then "~" ++ showF64 (sc.wide x) else sc.shw x
   let script ← (match arg toks "script" with | none => some [] | some s => parseScript s)
   let split := scriptSplit (α := α) script
-  match buildCheck ncols leaf with
-  | .error .emptyLeaf => some "err EmptyLeaf"
-  | .error .zeroDimension => some "err ZeroDimension"
-  | .ok () =>
-    let stored := enumerate pts
-    if op == "tree" then
-      let ix := ballIndex m vecMean split leaf ncols pts
-      let ok := allSplitsOk split leaf pts.length stored
+  -- calling forms: the memory layout of batch / query is not an input of the model (it sees the
+  -- logical values), but an unknown form is an ill-formed request
+  let lay := (arg toks "lay").getD "c"
+  let qlay := (arg toks "qlay").getD "c"
+  if !(["c", "f", "strided", "t"].contains lay) || !(["c", "strided"].contains qlay) then none else
+  let form ← (match (arg toks "form").getD "leaf" with
+    | "leaf" => some (Form.leaf leaf)
+    | "default" => some Form.default
+    | _ => none)
+  let effLeaf := form.leafSize
+  if op == "tree" then
+    match buildCheck ncols effLeaf with
+    | .error .emptyLeaf => some "err EmptyLeaf"
+    | .error .zeroDimension => some "err ZeroDimension"
+    | .ok () =>
+      let stored := enumerate pts
+      let ix := ballIndex m vecMean split effLeaf ncols pts
+      let ok := allSplitsOk split effLeaf pts.length stored
       some s!"ok split={if ok then "ok" else "bad"} {"|".intercalate (showTree sc approx ix.tree)}"
-    else do
-      let kind ← arg toks "kind"
-      let q ← (arg toks "q").bind (parseList sc.parse)
-      let qdim := q.length
-      let margin := fun (extra : List α) =>
-        if approx then s!" margin=~{showF64 (marginOf sc (extra ++ stored.map fun x => m.rdist q x.1))}" else ""
-      if op == "knn" then
-        let k ← argNat toks "k"
-        let res ← (match kind with
-          | "linear" => some (linearKnnQ m ncols qdim q k stored)
-          | "kd" => some (kdKnnQ m ncols qdim q k stored)
-          | "ball" => some (ballKnnQ m (ballIndex m vecMean split leaf ncols pts) qdim q k)
-          | _ => none)
-        match res with
-        | .error .wrongDimension => some "err WrongDimension"
-        | .ok out =>
-          let ds := out.map fun x => m.rdist q x.1
-          let strict := match ds.getLast? with
-            | none => []
-            | some last => sortNat ((stored.filter fun x => decide (m.rdist q x.1 < last)).map (·.2))
-          some s!"ok n={out.length} d={showList fD ds} strict={showList toString strict}{margin []}"
-      else if op == "range" then
-        let r ← (arg toks "r").bind sc.parse
-        let res ← (match kind with
-          | "linear" => some (linearRangeQ m ncols qdim q r stored)
-          | "kd" => some (kdRangeQ m ncols qdim q r stored)
-          | "ball" => some (ballRangeQ m (ballIndex m vecMean split leaf ncols pts) qdim q r)
-          | _ => none)
-        match res with
-        | .error .wrongDimension => some "err WrongDimension"
-        | .ok out => some s!"ok pos={showList toString (sortNat (out.map (·.2)))}{margin [m.toR r]}"
-      else none
+  else do
+    let stored := enumerate pts
+    let kind ← (match arg toks "kind" with
+      | some "linear" => some Kind.linear
+      | some "kd" => some Kind.kd
+      | some "ball" => some Kind.ball
+      | _ => none)
+    let q ← (arg toks "q").bind (parseList sc.parse)
+    let qdim := q.length
+    let margin := fun (extra : List α) =>
+      if approx then s!" margin=~{showF64 (marginOf sc (extra ++ stored.map fun x => m.rdist q x.1))}" else ""
+    -- several defects at once (zero leaf size, zero columns, wrong query dimension): the statement
+    -- promises an error, not which defect it names; the kind is compared for a single defect only
+    let defects := (if effLeaf = 0 then 1 else 0) + (if ncols = 0 then 1 else 0) + (if ncols ≠ qdim then 1 else 0)
+    let showErr := fun (r : Reply (List α)) (okf : List (Pt (List α)) → String) => match r with
+      | .ok out => okf out
+      | _ => if defects > 1 then "err multiple" else match r with
+      | .buildErr .emptyLeaf => "err EmptyLeaf"
+      | .buildErr .zeroDimension => "err ZeroDimension"
+      | .nnErr .wrongDimension => "err WrongDimension"
+      | .ok out => okf out
+    if op == "knn" then
+      let k ← argNat toks "k"
+      some (showErr (knnRequest m vecMean split kind form ncols pts qdim q k) fun out =>
+        let ds := out.map fun x => m.rdist q x.1
+        let strict := match ds.getLast? with
+          | none => []
+          | some last => sortNat ((stored.filter fun x => decide (m.rdist q x.1 < last)).map (·.2))
+        s!"ok n={out.length} d={showList fD ds} strict={showList toString strict}{margin []}")
+    else if op == "range" then
+      let r ← (arg toks "r").bind sc.parse
+      some (showErr (rangeRequest m vecMean split kind form ncols pts qdim q r) fun out =>
+        s!"ok pos={showList toString (sortNat (out.map (·.2)))}{margin [m.toR r]}")
+    else none
 end
 
 def handle (toks : List String) : String :=
